@@ -600,7 +600,8 @@ class VhdlScope:
             parent._subscopes.append(self)
 
     def reserve_name(self, name):
-        self._used_names.add(name)
+        # names are compared case insensitive
+        self._used_names.add(name.lower())
 
     def declare(self, obj, _is_first=True, name_hint=None, *, _obj_only=False):
         type_declared = _obj_only
@@ -1493,7 +1494,9 @@ class ModuleScope(VhdlScope):
             additional_reserved_names = set()
 
         self._used_names = (
-            self._vhdl_reserved | self._additional_reserved | additional_reserved_names
+            self._vhdl_reserved
+            | self._additional_reserved
+            | {name.lower() for name in additional_reserved_names}
         )
 
 
